@@ -50,6 +50,8 @@ Record case := {
   k_obs : list (list (pystr * list Z));    (* open_bonds handed to each add_fragment call *)
   k_added : list pystr;                    (* fragment names add_fragment returned *)
   k_det : list bool;                       (* C17 histories: repeated runs gave identical molecules *)
+  k_exact : list bool;                     (* stop rule judged by the harness in exact rational arithmetic on the
+                                              recorded binary64 masses: [sum >= target; sum without the last < target] *)
   k_out : outcome }.
 
 (** * comparison helpers *)
@@ -353,10 +355,12 @@ Section C17.
     match added_masses with
     | None => false
     | Some ms =>
-        negb (fltb (fsum ms) (k_target c)) &&
+        (* a clause fails only when BOTH the binary64 left fold (what the code computes) and the exact
+           rational sum of the same masses say so: round-off alone is never reported *)
+        (negb (fltb (fsum ms) (k_target c)) || nth 0 (k_exact c) false) &&
         match ms with
         | [] => true
-        | _ => fltb (fsum (removelast ms)) (k_target c)
+        | _ => fltb (fsum (removelast ms)) (k_target c) || nth 1 (k_exact c) false
         end &&
         (* the fragments named are the copies 1.. of the returned molecule, in order *)
         strs_eqb (k_added c)
